@@ -453,6 +453,12 @@ func genLivingCase(prop, tier string, r *rand.Rand) *Case {
 			v.Prior = 0 // (an empty document instead of one with a dead person)
 		}
 	}
+	if v.PriorOptions != nil && r.IntN(2) == 0 {
+		// the earlier publish ends early: the disk fills up in the middle of
+		// one of its first pages (what was rendered and not written is still
+		// somewhere in the process when the publish under test starts)
+		v.PriorFaults = []DiskFault{{Kind: "fail_body", K: 1 + r.IntN(6), B: pick(r, []int{0, 1, 40, 300, 2000})}}
+	}
 	cfg.Variants = []PubVariant{v}
 	cfg.EditedBetween = editedAfter
 	c.Publish = cfg
@@ -561,7 +567,8 @@ func runLivingCase(t *testing.T, c *Case, cr *CaseResult) *CaseResult {
 			return cr
 		}
 		sub := &CaseResult{Prop: prop, Probes: map[string]int64{}, Counters: map[string]int64{}}
-		runPublishDoc(t, sub, prop, doc, *v.PriorOptions, 1, simrt.Config{Mode: "default", MapOrder: "identity"}, c.Today, nil)
+		runPublishDoc(t, sub, prop, doc, *v.PriorOptions, 1, simrt.Config{Mode: "default", MapOrder: "identity"}, c.Today, v.PriorFaults)
+		cr.count("history.prior_publish_disk_full", int64(len(v.PriorFaults)))
 		cr.Runs++
 		cr.count("history.prior_publish", 1)
 		cr.count("history.same_document_object", 1)
@@ -575,7 +582,8 @@ func runLivingCase(t *testing.T, c *Case, cr *CaseResult) *CaseResult {
 	} else {
 		if v.Prior >= 0 && v.Prior < len(c.Docs) && v.PriorOptions != nil {
 			sub := &CaseResult{Prop: prop, Probes: map[string]int64{}, Counters: map[string]int64{}}
-			runPublish(t, sub, prop, c.Docs[v.Prior], *v.PriorOptions, 1, simrt.Config{Mode: "default", MapOrder: "identity"}, c.Today, nil)
+			runPublish(t, sub, prop, c.Docs[v.Prior], *v.PriorOptions, 1, simrt.Config{Mode: "default", MapOrder: "identity"}, c.Today, v.PriorFaults)
+			cr.count("history.prior_publish_disk_full", int64(len(v.PriorFaults)))
 			cr.Runs++
 			cr.count("history.prior_publish", 1)
 		}
